@@ -7,6 +7,7 @@ multi-filter cases).  The model (lean/Synphot/Core/FFT.lean at K = Q, Float-back
 comparison measures the implementation's own rounding only.  The number of points np.arange produced for the
 simplified grid (n+1, or n+2 by binary64 rounding of its end point) is an input of the model (DESIGN 1.2a).
 """
+import json
 import math
 
 import numpy as np
@@ -54,51 +55,159 @@ def to_dict(r):
             're': [float(complex(p).real) for p in pars], 'im': [float(complex(p).imag) for p in pars]}
 
 
+def decoy_bp(case):
+    """a different bandpass derived from the case (shifted half grid, reversed and rescaled curve): whatever a
+    call on it leaves behind (module-level or closure state) must not leak into the measured calls"""
+    f = case['filters'][0] if case['op'] == 'fft_table' else case
+    pts, vals = fl(f['pts']), fl(f['vals'])
+    k = max(8, len(pts) // 2)
+    from synphot import SpectralElement
+    from synphot.models import Empirical1D
+    v = [0.5 * x + 0.1 * (i % 3) for i, x in enumerate(reversed(vals))][:k]
+    return SpectralElement(Empirical1D, points=np.array([x + 3.5 for x in pts[:k]]), lookup_table=np.array(v))
+
+
+def pre_call(ff, step, case, bp, w):
+    """one call of the history that precedes the measured calls; its result and errors are irrelevant"""
+    import astropy.units as u
+    try:
+        with core.warnings.catch_warnings():
+            core.warnings.simplefilter('ignore')
+            if step == 'to_decoy':
+                ff.filter_to_fft(decoy_bp(case), n_terms=3)
+            elif step == 'from_decoy':
+                ff.filter_from_fft(*ff.filter_to_fft(decoy_bp(case), n_terms=4))
+            elif step == 'ana_decoy':
+                r = ff.filter_to_fft(decoy_bp(case), n_terms=3)
+                ff.analytical_model_from_fft(*r)(ff._simplified_wavelength(r[0], r[1], r[2]))
+            elif step == 'table_decoy':
+                ff.filters_to_fft_table({'decoy': (decoy_bp(case), None)}, n_terms=2)
+            elif step == 'to_other_terms':
+                ff.filter_to_fft(bp, wavelengths=w, n_terms=case['n_terms'] + 2)
+            elif step == 'from_other_terms':
+                ff.filter_from_fft(*ff.filter_to_fft(bp, wavelengths=w, n_terms=max(2, case['n_terms'] // 2)))
+    except Exception:  # noqa
+        pass
+
+
+def pre_eval(m, grid, step, quantity):
+    """one earlier evaluation of the analytic model object in the history (a sub-range, scattered points, the
+    reversed grid, the grid in another unit / without units, points between the grid points)"""
+    import astropy.units as u
+    N = len(grid)
+    kind = step['kind']
+    if kind == 'sub':
+        lo = min(N - 2, int(step['lo'] * N))
+        hi = max(lo + 2, int(step['hi'] * N))
+        x = grid[lo:hi]
+    elif kind == 'points':
+        x = grid[sorted({min(N - 1, int(f * N)) for f in step['fr']})]
+    elif kind == 'reversed':
+        x = grid[::-1]
+    elif kind == 'offgrid':
+        x = (grid[:-1] + grid[1:]) / 2
+    elif kind == 'unit':
+        x = grid.to(u.Unit(step['unit']))
+        quantity = True
+    else:                       # 'flip_units': the other of Quantity / plain numbers
+        x = grid
+        quantity = not quantity
+    try:
+        with core.warnings.catch_warnings():
+            core.warnings.simplefilter('ignore')
+            m(x if quantity else x.value)
+    except Exception:  # noqa
+        pass
+
+
+def same_arrays(a, b):
+    return a.shape == b.shape and bool(np.array_equal(a, b, equal_nan=True))
+
+
 def impl_call(case):
+    """the history of one case: optional earlier calls on a decoy filter / with other term counts, then
+    filter_to_fft (optionally twice), then filter_from_fft (optionally twice) and the analytic model in either
+    order; ONE analytic model object is evaluated on the history's earlier samplings first, then on the full grid
+    (the measured evaluation) and once more on the full grid.  The measured call of each function is its last."""
     if case['op'] == 'fft_table':
         return impl_table(case)
     from synphot.filter_parameterization import filter_fft as ff
-    out = {}
+    hist = case.get('history') or {}
+    out = {'repeat': []}
     bp = make_bp(case)
     w = wave_arg(case)
     seen = guarded(lambda: bp._validate_wavelengths(w).value)
     out['wl_exact'] = seen.get('ok') == fl(case['pts'])       # the model is given pts as the wavelengths in Angstrom
+    for step in hist.get('pre', []):
+        pre_call(ff, step, case, bp, w)
     raw = {}
 
     def run_to():
+        if hist.get('to_twice'):
+            raw['r0'] = ff.filter_to_fft(bp, wavelengths=w, n_terms=case['n_terms'])
         raw['r'] = ff.filter_to_fft(bp, wavelengths=w, n_terms=case['n_terms'])
         return to_dict(raw['r'])
     out['to'] = guarded(run_to)
     if 'ok' not in out['to']:
         return out
     r = raw['r']
+    if 'r0' in raw and to_dict(raw['r0']) != out['to']['ok']:
+        out['repeat'].append('filter_to_fft')
     out['N'] = len(ff._simplified_wavelength(r[0], r[1], r[2]))
     args = r if case['from_form'] == 'quantity' else (r[0], r[1].value, r[2].value, r[3].value, r[4])
 
+    def table_of(b):
+        return {'pts': b.waveset.value, 'vals': np.array(b.model.lookup_table, dtype=float)}
+
     def run_from():
+        if hist.get('from_twice'):
+            raw['f0'] = table_of(ff.filter_from_fft(*args))
         b = ff.filter_from_fft(*args)
         # the table as stored (pts, vals) and the reconstructed bandpass sampled at the original grid
-        res = {'pts': b.waveset.value, 'vals': np.array(b.model.lookup_table, dtype=float)}
-        raw['from'] = res
-        res = dict(res)
+        res = table_of(b)
+        raw['f'] = dict(res)
         res['at_wl'] = b(np.array(fl(case['pts']))).value
         return res
-    out['from'] = guarded(run_from)
-    nt = len(r[4])
-    if case.get('ana', True):
-        def run_ana():
-            m = ff.analytical_model_from_fft(*args)
-            grid = ff._simplified_wavelength(r[0], r[1], r[2])
-            return m(grid if case['from_form'] == 'quantity' else grid.value)
+
+    def do_from():
+        out['from'] = guarded(run_from)
+        if 'f0' in raw and 'f' in raw and not all(same_arrays(raw['f0'][k], raw['f'][k]) for k in ('pts', 'vals')):
+            out['repeat'].append('filter_from_fft')
+
+    def run_ana():
+        m = ff.analytical_model_from_fft(*args)
+        grid = ff._simplified_wavelength(r[0], r[1], r[2])
+        quantity = case['from_form'] == 'quantity'
+        for step in hist.get('ana', []):
+            pre_eval(m, grid, step, quantity)
+        a1 = m(grid if quantity else grid.value)
+        a2 = m(grid if quantity else grid.value)
+        raw['a_same'] = same_arrays(np.asarray(getattr(a1, 'value', a1), dtype=float),
+                                    np.asarray(getattr(a2, 'value', a2), dtype=float))
+        return a1
+
+    def do_ana():
+        if not case.get('ana', True):
+            return
         try:
             out['analytic'] = guarded(run_ana)
         except RecursionError:          # raised while guarded() itself was unwinding
             out['analytic'] = {'err': 'RecursionError'}
+        if raw.get('a_same') is False:
+            out['repeat'].append('analytical_model_from_fft')
+
+    if hist.get('ana_first'):
+        do_ana()
+        do_from()
+    else:
+        do_from()
+        do_ana()
     return out
 
 
 def impl_table(case):
     from synphot.filter_parameterization import filter_fft as ff
+    hist = case.get('history') or {}
     mapping, singles, Ns = {}, [], []
     for f in case['filters']:
         bp = make_bp(f)
@@ -108,18 +217,39 @@ def impl_table(case):
         singles.append(s)
         Ns.append(len(ff._simplified_wavelength(s['ok']['n'], s['ok']['lam0'], s['ok']['delta'])) if 'ok' in s else None)
 
-    def run():
-        t = ff.filters_to_fft_table(mapping, n_terms=case['n_terms'])
+    def rows_of(t, n_terms):
         rows = []
         for row in t:
-            pars = [complex(row['fft_%d' % i]) for i in range(case['n_terms'])]
+            pars = [complex(row['fft_%d' % i]) for i in range(n_terms)]
             rows.append({'name': str(row['filter']),
                          'row': {'n': int(row['n_lambda']), 'lam0': float(row['lambda_0']),
                                  'delta': float(row['delta_lambda']), 'tr_max': float(row['tr_max']),
                                  're': [p.real for p in pars], 'im': [p.imag for p in pars]}})
         return {'rows': rows, 'colnames': list(t.colnames),
                 'units': [str(t['lambda_0'].unit), str(t['delta_lambda'].unit)]}
-    return {'table': guarded(run), 'singles': singles, 'Ns': Ns}
+
+    first = {}
+    for step in hist.get('pre', []):        # earlier table builds: their result is irrelevant (except 'same')
+        try:
+            with core.warnings.catch_warnings():
+                core.warnings.simplefilter('ignore')
+                if step == 'reversed':
+                    ff.filters_to_fft_table(dict(reversed(list(mapping.items()))), n_terms=case['n_terms'])
+                elif step == 'decoy':
+                    ff.filters_to_fft_table({'decoy': (decoy_bp(case), None)}, n_terms=2)
+                elif step == 'other_terms':
+                    ff.filters_to_fft_table(mapping, n_terms=max(1, case['n_terms'] - 1))
+                elif step == 'same':
+                    first['t'] = rows_of(ff.filters_to_fft_table(mapping, n_terms=case['n_terms']), case['n_terms'])
+                else:
+                    pre_call(ff, step, case, *mapping[case['filters'][0]['name']])
+        except Exception:  # noqa
+            pass
+    out = {'table': guarded(lambda: rows_of(ff.filters_to_fft_table(mapping, n_terms=case['n_terms']), case['n_terms'])),
+           'singles': singles, 'Ns': Ns, 'repeat': []}
+    if 't' in first and 'ok' in out['table'] and core.plain(first['t']) != out['table']['ok']:
+        out['repeat'].append('filters_to_fft_table')
+    return out
 
 
 # ------------------------------------------------------------------ model side
@@ -193,7 +323,17 @@ def fail(rep, sig, msg, case, out):
         rep.oracle_fail(sig, msg, None, None)
 
 
+def hist_text(case):
+    h = case.get('history') or {}
+    if not h:
+        return ''
+    return ' [history: %s]' % json.dumps(h, sort_keys=True)
+
+
 def oracle(rep, case, out):
+    for name in out.get('repeat', []):
+        fail(rep, '%s:repeat:differs' % name, 'two identical calls of %s within one history gave different results%s'
+             % (name, hist_text(case)), case, out)
     if case['op'] == 'fft_table':
         return oracle_table(rep, case, out)
     pts, vals = fl(case['pts']), fl(case['vals'])
@@ -261,8 +401,8 @@ def oracle(rep, case, out):
         err = max(abs(x - y) for x, y in zip(a, b)) if len(a) == len(b) else math.inf
         if not err <= OTOL * peak:
             fail(rep, 'analytical_model_from_fft:vs-tabulated:value',
-                            'analytic model differs from the tabulated reconstruction by %.3g on the full grid (peak %r)'
-                            % (err, peak), case, out)
+                            'analytic model differs from the tabulated reconstruction by %.3g on the full grid (peak %r; '
+                            'analytic spans [%r, %r])%s' % (err, peak, min(a), max(a), hist_text(case)), case, out)
 
 
 def oracle_table(rep, case, out):
@@ -360,6 +500,32 @@ def gen_filter(rng, n, grid=None, curve=None, wform=None):
     return f
 
 
+PRE_CALLS = ['to_decoy', 'from_decoy', 'ana_decoy', 'table_decoy', 'to_other_terms', 'from_other_terms']
+PRE_EVALS = ['sub', 'sub', 'sub', 'points', 'points', 'reversed', 'offgrid', 'unit', 'flip_units']
+
+
+def gen_history(rng, eff):
+    """what happens to the module / the analytic model object before the measured calls (eff: number of terms of
+    the analytic model, None when it is not evaluated)"""
+    h = {'pre': [rng.choice(PRE_CALLS) for _ in range(rng.choice([0, 0, 1, 1, 2, 3]))],
+         'to_twice': rng.random() < 0.4, 'from_twice': rng.random() < 0.4, 'ana_first': rng.random() < 0.4,
+         'ana': []}
+    if eff is not None:
+        k = rng.choice([0, 1, 1, 2, 2, 3]) if eff <= ANALYTIC_MANY else rng.choice([1, 1, 2])
+        for _ in range(k):
+            kind = rng.choice(PRE_EVALS)
+            st = {'kind': kind}
+            if kind == 'sub':
+                lo = rng.uniform(0, 0.8)
+                st.update(lo=lo, hi=rng.uniform(lo + 0.05, 1.0))
+            elif kind == 'points':
+                st['fr'] = [rng.random() for _ in range(rng.randint(2, 6))]
+            elif kind == 'unit':
+                st['unit'] = rng.choice(['nm', 'micron'])
+            h['ana'].append(st)
+    return h
+
+
 def pick_n(rng, thorough):
     if not thorough or rng.random() < 0.5:
         return rng.randint(8, 64)
@@ -388,6 +554,7 @@ def gen_case(rng, thorough, n=None, terms=None, many=False, **kw):
     c['ana'] = bool(many) or n <= MODEL_NMAX or eff <= 24 or rng.random() < (0.3 if eff <= ANALYTIC_MANY else 0.06)
     # thorough: the model (O(n^2) at Q) is compared on a little over half of the small grids
     c['model'] = n <= MODEL_NMAX and (not thorough or rng.random() < 0.55)
+    c['history'] = gen_history(rng, eff if c['ana'] else None)
     return c
 
 
@@ -401,7 +568,9 @@ def gen_table_case(rng, thorough):
         fs.append(f)
     if rng.random() < 0.1:                  # ... except in the ragged cases (Table raises ValueError)
         nt = max(len(f['pts']) for f in fs) + rng.randint(3, 6)
-    return {'op': 'fft_table', 'filters': fs, 'n_terms': nt}
+    pre = [rng.choice(['reversed', 'decoy', 'other_terms', 'same', 'same', 'to_decoy', 'ana_decoy', 'from_decoy'])
+           for _ in range(rng.choice([0, 1, 1, 2, 3]))]
+    return {'op': 'fft_table', 'filters': fs, 'n_terms': nt, 'history': {'pre': pre}}
 
 
 def gen_cases(rng, thorough):
@@ -424,6 +593,7 @@ def gen_cases(rng, thorough):
             c['tclass'] = 'one' if nt == 1 else 'full' if nt >= n + 2 else 'partial'
             c['ana'] = True
             c['model'] = True
+            c['history'] = gen_history(rng, min(nt, n + 1))
             yield c
     for _ in range(800 if thorough else 40):
         yield gen_table_case(rng, thorough)
@@ -493,6 +663,8 @@ def process(rep, items, with_model=True):
         tags = ['op:roundtrip', 'grid:' + c['grid'], 'curve:' + c['curve'], 'terms:' + c['tclass'], 'wform:' + c['wform'],
                 'size:' + ('8-64' if n <= 64 else '65-400' if n <= 400 else '401-2000'),
                 'model:' + ('compared' if m else 'oracle-only')]
+        h = c.get('history') or {}
+        tags.append('history:pre-calls=%d,pre-evals=%d' % (len(h.get('pre', [])), len(h.get('ana', []))))
         if 'ok' in o['to']:
             tags.append('arange-count:n+%d' % (o['N'] - n))
             tags.append('from:' + (o['from'].get('err') or 'ok'))
@@ -547,7 +719,13 @@ RULE = ('bandpass tables (Empirical1D) of n points, n uniform in 8..64 (quick; t
         'wavelengths handed over as None (waveset) / ndarray / list / Quantity in Angstrom, nm, micron; n_terms: 1 (7%%), '
         '>= grid length i.e. every term (28%%), uniform 2..n+1 (45%%), 2..12 (20%%), plus every term count 1..n+2 of one '
         'small grid per grid kind; filter_from_fft / analytical_model_from_fft called with Quantities or plain floats; '
-        'analytic model evaluated on every grid <= 64 points and for <= 24 terms, on 30%% of the larger cases up to %d '
+        'every case is a history: 0-3 earlier calls (filter_to_fft / filter_from_fft / analytic model / table on a decoy '
+        'filter, or on the same filter with other term counts), filter_to_fft and filter_from_fft optionally called twice '
+        '(results must be identical), filter_from_fft and the analytic model in either order; ONE analytic model object '
+        'is first evaluated 0-3 times on a sub-range / 2-6 scattered points / the reversed grid / midpoints / the grid in '
+        'nm or micron / with-without units, then on the full grid (measured) and again on the full grid (must be '
+        'identical); tables are preceded by 0-3 builds (reversed mapping, decoy, other n_terms, same); the model side is '
+        'a function of the measured request only; analytic model evaluated on every grid <= 64 points and for <= 24 terms, on 30%% of the larger cases up to %d '
         'terms and 6%% above, plus dedicated cases of 250..grid-length terms on grids of 260..700 (thorough ..2000) '
         'points; filters_to_fft_table on 1-4 such filters incl. ragged n_terms > grid length. Model '
         'comparison (K = Q, Float sin/cos) for n <= %d (thorough: 55%% of those), tolerance %g of the scale; oracle alone otherwise. Non-trivial: '
